@@ -73,9 +73,7 @@ class Instr:
         super().startModule(start_events)
 
     def stopPollThread(self):
-        if self.name not in _state.stopped:       # joinPollThread calls it a second time
-            _state.stopped.add(self.name)
-            _ev('stopPoll', self.name)
+        _ev('stopPoll', self.name)                 # every call (joinPollThread calls it a second time)
         super().stopPollThread()
 
     def shutdownModule(self):
